@@ -199,7 +199,7 @@ def jobs(tier, prop):
         n_ev = sum(1 for k in ops if k in ('S', 'F') or k[0] == 'N') + sum(1 for k in ops if k in 'RA')
         return len(ops) * 3.0 ** n_ev / (8.0 if sub.get('pre') else 1.0)
     return pack(subs, 64, weight, f'{prop.lower()}-q', weights='free',
-                timeout=170 if tier == 'quick' else 300)
+                timeout=240 if tier == 'quick' else 300)
 
 
 def bounds_text(tier, prop):
